@@ -399,6 +399,22 @@ let cmd_version () =
          | Inr e -> Printf.printf "PARTS %s ERR %s\n" ps (verr e))
     | _ -> failwith ("version: bad line " ^ l))
 
+(* zerosize <case> : array element types of the definition set that can decode from zero bytes *)
+let cmd_zerosize () =
+  ic := open_in Sys.argv.(2);
+  let (dialect, alias, ifaces, ents) = read_case () in
+  match build_setup Wows table_wows alias ifaces ents [] [] [] with
+  | Err e -> Printf.printf "SETUP-ERROR %s\n" (err_name e)
+  | Ok st ->
+      let n = ref 0 in
+      List.iter (fun (name, m) ->
+        let chk where t =
+          n := !n + int_of_nat (count_arrays t);
+          List.iter (fun e -> Printf.printf "ZERO %s %s %s\n" (ocaml_string_of name) where (type_syntax e)) (zero_size_elems t) in
+        List.iter (fun p -> chk (ocaml_string_of p.p_name) p.p_type) (m.e_client @ m.e_internal @ m.e_base);
+        List.iter (fun mt -> List.iter (fun (_, t) -> chk (ocaml_string_of mt.m_name) t) mt.m_args) m.e_methods) st.s_models;
+      Printf.printf "ARRAYS %d\n" !n
+
 (* frames : one hex stream per line -> "<tail> <type>:<timehex>:<payloadhex|-> ..." *)
 let cmd_frames () =
   iter_lines (fun l ->
@@ -424,6 +440,7 @@ let () =
   | "write" -> cmd_write ()
   | "frames" -> cmd_frames ()
   | "defs" -> cmd_defs ()
+  | "zerosize" -> cmd_zerosize ()
   | "version" -> cmd_version ()
   | "container" -> cmd_container ()
   | "mkcontainer" -> cmd_mkcontainer ()
